@@ -30,6 +30,10 @@ def bases(ctx, tier):
     # order-dependent patterns recorded in the history (verify -dh reads them from there)
     t3 = dict(T); t3["keep.txt"] = b"re-included"; t3["other.txt"] = b"excluded"
     B["negated-pattern"] = (ops.build(ctx, t3, [c("", ["xxh64"], i=["*.txt", "!keep.txt", "!d/c.txt"])], expect=[0]), True)
+    # a pattern that is bound to one place (anchored at the root) while entries of the same name exist elsewhere
+    t4 = dict(T); t4["notes.txt"] = b"excluded: the one at the root"; t4["d/notes.txt"] = b"sealed"; t4["d/e/notes.txt"] = b"sealed as well"
+    t4["d/skip"] = DIR; t4["d/skip/x.txt"] = b"excluded folder d/skip"; t4["emp/skip"] = DIR; t4["emp/skip/y.txt"] = b"sealed: another folder called skip"
+    B["anchored-pattern"] = (ops.build(ctx, t4, [c("", ["xxh64"], i=["/notes.txt", "d/skip/"])], expect=[0]), True)
     B["n-generation-after-normal"] = (ops.build(ctx, T, [c("", ["xxh64"]), c("", ["xxh64"], n=True)], expect=[0, 0]), True)
     B["n-generation-before-normal"] = (ops.build(ctx, T, [c("", ["xxh64"], n=True), c("", ["xxh64"])], expect=[0, 0]), True)
     B["nested-under-n-only-root"] = (ops.build(ctx, T, [c("d", ["md5"]), c("", ["xxh64"], n=True)], expect=[0, 0]), False)
@@ -116,7 +120,7 @@ def visible(tree, pats):
     return {p: c for p, c in ref.media(tree).items() if not ref.ignored(pats, p, c is DIR)}
 
 
-PATS = {"negated-pattern": ["*.txt", "!keep.txt", "!d/c.txt"]}
+PATS = {"negated-pattern": ["*.txt", "!keep.txt", "!d/c.txt"], "anchored-pattern": ["/notes.txt", "d/skip/"]}
 
 
 def work(ctx, case):
